@@ -288,7 +288,13 @@ class Executor:
     def ev_Name(self, node, st, sink):
         v = self.lookup_name(node.id, st)
         if v.ty.kind in ("seq", "map", "set") and node.id in st.locals:
-            v = SV(v.ty, v.v, loc=("local", node.id))
+            if v.loc is not None and v.loc[0] == "field":
+                # the local is an alias of a container held in a field (python reference semantics): read the
+                # field's current content, and write mutations back to the field
+                cur = st.heap.get(v.loc[1], v.loc[2])
+                v = SV(cur.ty, cur.v, loc=v.loc)
+            else:
+                v = SV(v.ty, v.v, loc=("local", node.id))
         yield st, v
 
     def ev_JoinedStr(self, node, st, sink):
@@ -648,6 +654,10 @@ class Executor:
             return
         if k == "ref":
             fd = self.w.schema.lookup(recv.ty.cls, attr)
+            if fd is None and not attr.startswith("__") and self.resolve_method(recv.ty.cls, attr) is None and self.w.contract_for_method(recv.ty.cls, attr) is None \
+                    and not any(attr in extract.load(self.w.class_home[c]).class_consts.get(c, {}) for c in self.w.schema.mro(recv.ty.cls) if c in self.w.class_home) \
+                    and recv.ty.cls in self.w.class_home:
+                fd = st.heap.fd(recv.ty.cls, attr)   # unknown instance attribute of a repository class: opaque slot
             if fd is not None and not fd.ghost:
                 for st2, isnull in self.fork(st, recv.v == 0):
                     if isnull:
@@ -1385,11 +1395,8 @@ class Executor:
                 st.locals[tgt.id] = v
                 return [st]
             st.locals[tgt.id] = SV(v.ty, v.v) if v.loc is not None else v
-            if v.loc is not None and v.ty.kind in ("seq", "map", "set"):
-                st.locals[tgt.id] = SV(v.ty, v.v)
-                st.ghost.setdefault("$aliases", {})
-                st.ghost = dict(st.ghost)
-                st.ghost["$aliases"] = dict(st.ghost["$aliases"], **{tgt.id: v.loc})
+            if v.loc is not None and v.loc[0] == "field" and v.ty.kind in ("seq", "map", "set"):
+                st.locals[tgt.id] = SV(v.ty, v.v, loc=v.loc)   # alias of the field's container object
             return [st]
         if isinstance(tgt, (ast.Tuple, ast.List)):
             if v.ty.kind == "tuple":
